@@ -19,7 +19,7 @@ JSpec == JInit /\ [][JNext]_vars
 Emit == LET c  == JudgeCases[pi]
             Pg == Programs[c.p]
             e  == [r \in DOMAIN c.edb |-> SeqToSet(c.edb[r])]
-            M  == ModelOf(Pg, e)
+            M  == ModelOf(Pg, e).I
         IN /\ PrintT(<<"MODEL", pi, M = [r \in DOMAIN M |-> SeqToSet(c.full[r])]>>)
            /\ PrintT(<<"RULES", pi, CitedSound(c.rules, M)>>)
            /\ \A j \in 1..Len(c.qs) :
